@@ -3,6 +3,7 @@ package main
 // Evaluation of spec expressions into SMT terms over a program state.
 
 import (
+	"sort"
 	"fmt"
 	"go/constant"
 	"go/types"
@@ -24,6 +25,7 @@ type SpecEnv struct {
 	facts *[]string
 	uses  *[]idxUse
 	inOld bool
+	outer *SpecEnv // closure invariants evaluated at a call site: the enclosing function's scope
 }
 
 type idxUse struct {
@@ -105,6 +107,14 @@ func (env *SpecEnv) lookupLocal(name string) *Val {
 		for _, p := range fr.fn.Params {
 			if p.Name() == name {
 				return fr.vals[p]
+			}
+		}
+	}
+	// free variables of a closure (pointers to the captured cells)
+	for _, fv := range fr.fn.FreeVars {
+		if fv.Name() == name {
+			if v, ok := fr.vals[fv]; ok {
+				return v
 			}
 		}
 	}
@@ -1087,6 +1097,31 @@ func (env *SpecEnv) evalCall(x *SExpr) *Val {
 				a = v.S[1]
 			}
 			return &Val{T: t, K: KInt, S: []string{a}}
+		case "outer":
+			// outer(E): an integer expression of the enclosing function (closure contracts). While
+			// the closure body is verified it is a rigid unknown; where the closure is handed to a
+			// callee it is evaluated in the caller's scope.
+			if env.outer != nil {
+				v := env.outer.eval(args[0])
+				if v.K != KInt {
+					env.fail("outer() supports integer expressions only: %s", args[0])
+				}
+				return mathInt(v.term())
+			}
+			if env.fr == nil || env.fr.fn.Parent() == nil {
+				env.fail("outer() outside a closure contract")
+			}
+			key := args[0].String()
+			if e.outerSyms == nil {
+				e.outerSyms = map[string]string{}
+			}
+			sy, ok := e.outerSyms[key]
+			if !ok {
+				sy = e.s.Fresh("outer", "Int")
+				e.outerSyms[key] = sy
+				e.note("outer(%s) is a rigid unknown inside the closure (bound to the caller's value where the closure is handed over)", key)
+			}
+			return mathInt(sy)
 		case "typeof":
 			v := env.eval(args[0])
 			if v.K != KIface {
@@ -1408,6 +1443,44 @@ func (e *Enc) evalModTarget(x *SExpr, env *SpecEnv) []modTarget {
 		case "chan":
 			c := env.eval(x.Args[1])
 			return []modTarget{{comp: "CH:len", sort: "(Array Int Int)", kind: "point", addr: c.term()}}
+		case "pointee":
+			// pointee(x): the object a pointer, or the pointer held by an interface value, refers to
+			// (shallow: the fields of that object). The dynamic type must be known at the call site.
+			v := env.eval(x.Args[1])
+			var pt types.Type
+			addr := ""
+			if v.K == KIface {
+				var id int
+				if _, err := fmt.Sscanf(v.S[0], "%d", &id); err != nil || !isLiteral(v.S[0]) {
+					// dynamic type unknown here: any object may be the target
+					e.note("pointee(%s): dynamic type not known at a call site; every heap component is havocked there", x.Args[1])
+					var ks []string
+					for k := range e.compSort {
+						ks = append(ks, k)
+					}
+					sort.Strings(ks)
+					for _, k := range ks {
+						if strings.HasPrefix(e.compSort[k], "(Array Int ") && !strings.HasPrefix(k, "GV:") && !strings.HasPrefix(k, "L:") && !e.ghostComps[k] {
+							out = append(out, modTarget{comp: k, sort: e.compSort[k], kind: "all"})
+						}
+					}
+					return out
+				}
+				for k, tid := range e.w.typeIDs {
+					if tid == id {
+						pt = e.w.typeByKey[k]
+					}
+				}
+				addr = v.S[1]
+			} else {
+				pt = v.T
+				addr = v.term()
+			}
+			if pt == nil || derefType(pt) == nil {
+				env.fail("pointee(%s): not a pointer", x.Args[1])
+			}
+			e.leafTargets(&Ref{addr, derefType(pt), ""}, &out)
+			return out
 		case "captured":
 			// captured(f): the variables captured by reference by the closure f (a callback handed to
 			// the callee, which may run it)
@@ -1418,6 +1491,23 @@ func (e *Enc) evalModTarget(x *SExpr, env *SpecEnv) []modTarget {
 				}
 				if dt := derefType(b.T); dt != nil && b.K == KInt {
 					e.leafTargets(&Ref{b.term(), dt, b.Comp}, &out)
+					// a captured slice variable may be appended to in place: its spare capacity
+					// may be written as well
+					if _, isSlice := dt.Underlying().(*types.Slice); isSlice {
+						sv := env.load(b.term(), dt, b.Comp)
+						et := elemType(dt)
+						k := sizeOf(et)
+						var lvs []leaf
+						e.memLeaves(et, "", &lvs)
+						seen := map[string]bool{}
+						for _, lf := range lvs {
+							if seen[lf.suffix] {
+								continue
+							}
+							seen[lf.suffix] = true
+							out = append(out, modTarget{comp: lf.suffix, sort: lf.sort, kind: "range", addr: elemAddr(sv.S[0], k, sv.S[1]), n: mulK(k, app("-", sv.S[2], sv.S[1]))})
+						}
+					}
 				}
 			}
 			return out
